@@ -60,6 +60,8 @@ func runC05(c *core.Ctx) {
 	c.Rule("R4", "normalisation and conflict resolution are applied on the stored map", 2)
 	c.Rule("R5", "tokensEqual compares lengths then elements", 1)
 	c.Rule("R7", "normalizeIngestersMap leaves every token list sorted in the map (in place, or written back on every path)", 1)
+	c.Rule("R9", "token conflicts are detected on the token alone (whatever the zones of its holders)", 1)
+	c.Rule("R10", "the token→owner index is immutable once published (shared with C13.R7)", 1)
 	c.Rule("R8", "no selection loop over tokens starts from the extreme value of the domain (shared with C14.R7)", 1)
 	c.Rule("R6", "first-element reads of token lists are guarded by a non-emptiness check", 1)
 	pkg := c.Prog.Pkg("ring")
@@ -196,6 +198,8 @@ func runC05(c *core.Ctx) {
 	// ---- R6
 	c05ConstIndex(c)
 	c05Normalize(c, pkg)
+	c05ConflictKey(c, pkg)
+	c13ImmutableIndex(c, pkg, "R10")
 	c14ExtremumAs(c, pkg, "R8")
 }
 
@@ -640,4 +644,37 @@ func c05Normalize(c *core.Ctx, pkg *packages.Package) {
 		}
 	}
 	c.Check(len(bad) == 0, "R7", "func=normalizeIngestersMap", loop.Pos(), fmt.Sprintf("every non-empty, unsorted token list is sorted (sort argument %s, in place=%v) so that the stored and re-gossiped entry is sorted %v", sc, inPlace, bad), ex.Paths)
+}
+
+// c05ConflictKey (R9): conflictingTokensExist reports a conflict ⇔ the same token value occurs twice:
+// every lookup and store of its seen-set is indexed by the token itself.
+func c05ConflictKey(c *core.Ctx, pkg *packages.Package) {
+	fn := an.FindFunc(pkg, "conflictingTokensExist")
+	if fn == nil {
+		c.Miss("R9", "func=conflictingTokensExist", "not found")
+		return
+	}
+	c.Analysed(fn.String())
+	tok := "each(each(p0).Tokens)"
+	var keys_ []string
+	ok := true
+	fn.InspectShallow(func(n ast.Node) bool {
+		ix, isIx := n.(*ast.IndexExpr)
+		if !isIx {
+			return true
+		}
+		if _, isMap := fn.Info().TypeOf(ix.X).Underlying().(*types.Map); !isMap {
+			return true
+		}
+		if v, isVar := fn.ObjOf(ix.X).(*types.Var); !isVar || v.IsField() || fn.Canon(ix.X) == "p0" {
+			return true
+		}
+		k := fn.Canon(ix.Index)
+		keys_ = append(keys_, k)
+		if k != tok {
+			ok = false
+		}
+		return true
+	})
+	c.Check(ok && len(keys_) >= 2, "R9", "func=conflictingTokensExist", fn.Pos(), fmt.Sprintf("the seen-set is indexed by the token value alone (keys %v): two holders of one token conflict whatever their zones", keys_), len(keys_))
 }
